@@ -2,7 +2,7 @@
    contains statements, `exact`, and Print Assumptions only. *)
 From Coq Require Import List NArith Bool Sorted.
 From V.gen Require Consts.
-From V.Ts Require Import Model Proofs Answers Report ReportProofs ReportDead ReportDeadProofs.
+From V.Ts Require Import Model Proofs Answers Extra Report ReportProofs ReportDead ReportDeadProofs.
 Import ListNotations.
 Open Scope N_scope.
 
@@ -326,6 +326,81 @@ Theorem C08_no_closed_without_report :
   ~ In (IClosed c) (racc ch) -> ~ In (IClosed c) (racc ch').
 Proof. exact only_closed_reports_closed. Qed.
 Print Assumptions C08_no_closed_without_report.
+
+(* ---- outside the manager's contract: what the service does, and what survives ----
+   ConnectionEstablished / ConnectionClosed alternate per peer for EVERY history, from every
+   state — no feasibility assumption: more than two connections per peer, closed or substream
+   notifications for unknown connections, answers for unknown requests. Established is emitted
+   exactly when the peer gets its context, closed exactly when the context is removed (hc). What
+   is lost outside the contract is the link between "has a context" and "has an open connection"
+   (C08_needs_two_per_peer), not the alternation. *)
+Theorem C08_alternation_unconditional :
+  forall tr s q, alternates (hc (s_ctxs s) q) (conn_evs q (concat (run s tr))).
+Proof. exact alternation_any. Qed.
+Print Assumptions C08_alternation_unconditional.
+
+(* the only panic site of the service, debug_assert!(false) in on_connection_closed (a panic in
+   debug builds, a logged no-op in release builds), is reached exactly by a closed notification for
+   a peer the service has no connection to — whatever else the history contains — ... *)
+Theorem C08_panic_exactly_unknown_peer :
+  forall s dt i,
+  In OPanic (snd (step s dt i)) <-> exists p c, i = EClosed p c /\ find_ctx p (s_ctxs s) = None.
+Proof. exact panic_iff. Qed.
+Print Assumptions C08_panic_exactly_unknown_peer.
+
+(* ... and never inside the contract *)
+Theorem C08_no_panic_in_contract :
+  forall ka T n0 tr,
+  feasible 2 env0 (init ka T n0) tr = true -> ~ In OPanic (concat (run (init ka T n0) tr)).
+Proof. intros ka T n0 tr F. exact (no_panic tr env0 (init ka T n0) conn_inv_init F). Qed.
+Print Assumptions C08_no_panic_in_contract.
+
+(* a third connection of a peer is rejected: no event, contexts and tracker untouched, no
+   keep-alive activity (its handle is dropped with the event) *)
+Theorem C08_third_connection_ignored :
+  forall s p c cx h,
+  find_ctx p (s_ctxs s) = Some cx -> c_sec cx = Some h ->
+  snd (handle_ev s (EEst p c)) = [] /\ ka_activity_of s (EEst p c) = None /\
+  s_ctxs (fst (handle_ev s (EEst p c))) = s_ctxs s /\ s_last (fst (handle_ev s (EEst p c))) = s_last s /\
+  s_timers (fst (handle_ev s (EEst p c))) = s_timers s.
+Proof. exact third_ignored. Qed.
+Print Assumptions C08_third_connection_ignored.
+
+(* a closed notification whose id is not the primary's: nothing is emitted and the primary stays,
+   but the secondary slot is emptied whatever it held (secondary.take()) *)
+Theorem C08_closed_unknown_id_drops_secondary :
+  forall s p c cx,
+  find_ctx p (s_ctxs s) = Some cx -> h_id (c_prim cx) <> c ->
+  snd (handle_ev s (EClosed p c)) = [] /\
+  find_ctx p (s_ctxs (fst (handle_ev s (EClosed p c)))) = Some (mkCtx p (c_prim cx) None).
+Proof. exact closed_unknown_id. Qed.
+Print Assumptions C08_closed_unknown_id_drops_secondary.
+
+(* ---- force_close ----
+   the call is invisible to the service: contexts, tracker, counter and opens in flight are what a
+   plain poll at the same instant leaves; its ForceClose commands (which carry no permit) go only to
+   open connections of that peer; PeerDoesntExist exactly when the peer has no open connection, Ok
+   only together with the command to the primary, ChannelClogged only for a full primary channel *)
+Theorem C08_force_close_invisible :
+  forall s dt p fs fp, fst (step s dt (EForce p fs fp)) = fst (step s dt ENone).
+Proof. exact force_state. Qed.
+Print Assumptions C08_force_close_invisible.
+
+Theorem C08_force_close_targets :
+  forall e s dt i c,
+  conn_inv e (s_ctxs s) (s_pend s) -> In (OForce c) (snd (step s dt i)) ->
+  exists p fs fp, i = EForce p fs fp /\ In c (live_of p (e_live e)).
+Proof. exact force_targets. Qed.
+Print Assumptions C08_force_close_targets.
+
+Theorem C08_force_close_result :
+  forall e s dt p fs fp r,
+  conn_inv e (s_ctxs s) (s_pend s) -> In (ORetF r) (snd (step s dt (EForce p fs fp))) ->
+  (r = 1 <-> live_of p (e_live e) = []) /\
+  (r = 0 -> exists c, hd_error (live_of p (e_live e)) = Some c /\ In (OForce c) (snd (step s dt (EForce p fs fp)))) /\
+  (r = 3 -> fp = true) /\ r <= 3.
+Proof. exact force_result. Qed.
+Print Assumptions C08_force_close_result.
 
 (* Without C06's "at most two connections per peer" the statement is false: with three, closing
    the ignored third drops the live secondary (secondary.take() on an unknown id), and the
